@@ -1153,6 +1153,20 @@ def run_c03(ctx):
     guarded_clause(ctx, "C03-a", fg.path, "from-graph", a)
 
     def b():
+        gdod_clause(ctx, "C03-b", tb)
+    guarded_clause(ctx, "C03-b", tb.path, "table-entry", b)
+
+    def c():
+        dimfn, dim = dimension_formula(ctx)
+        n = Expr.symbol("D") * Expr.symbol("L")
+        want = Expr.const(2) * Expr.symbol("E") - Expr.const(1) + n + Expr.atom(("call", "mod", n, Expr.const(2)))
+        compare(ctx, "C03-c", "get_dimension == 2E − 1 + D·L + (D·L mod 2)", dim, want, dimfn.path, "dimension-formula", {}, ())
+    guarded_clause(ctx, "C03-c", "SampleGenerator::get_dimension", "dimension", c)
+    run_c03_tail(ctx, f)
+
+
+def gdod_clause(ctx, RID, tb):
+    if True:
         tw = table_world(ctx)
         r = tw.result
         ent = r.fields["table"].at("i")
@@ -1163,21 +1177,16 @@ def run_c03(ctx):
         half = Expr.const(sp.Rational(1, 2))
         base = W - ell * Expr.symbol("D") * half
         want = Expr.atom(("ite", "spanning(%s)" % cls, base - Expr.symbol("dod"), base)).guarded([("!=", "i", 0)]) + Expr.const(1).guarded([("=", "i", 0)])
-        compare(ctx, "C03-b", "generalized_dod(i) == [i≠0]·ite(spanning, W−ℓD/2−dod, W−ℓD/2) + [i=0]·1", scalar_of(ent.fields["generalized_dod"], "gdod"), want,
+        compare(ctx, RID, "generalized_dod(i) == [i≠0]·ite(spanning, W−ℓD/2−dod, W−ℓD/2) + [i=0]·1", scalar_of(ent.fields["generalized_dod"], "gdod"), want,
                 tb.path, "generalized-dod", {"i": "2^E"}, ())
-        ctx.ob("C03-b", "stored loop_number is ℓ(edges of i)", scalar_of(ent.fields["loop_number"], "loop_number") == ell, tb.path, "stored-loop-number")
+        ctx.ob(RID, "stored loop_number is ℓ(edges of i)", scalar_of(ent.fields["loop_number"], "loop_number") == ell, tb.path, "stored-loop-number")
         sp_ = ent.fields["mass_momentum_spanning"]
-        ctx.ob("C03-b", "stored flag is spanning(edges of i)", isinstance(sp_, Cond) and sp_.key() == "spanning(%s)" % cls, tb.path, "stored-spanning-flag")
+        ctx.ob(RID, "stored flag is spanning(edges of i)", isinstance(sp_, Cond) and sp_.key() == "spanning(%s)" % cls, tb.path, "stored-spanning-flag")
         dim = r.fields["dimension"]
-        ctx.ob("C03-b", "the table stores the dimension argument", scalar_of(dim, "dimension") == Expr.symbol("D"), tb.path, "stored-dimension")
-    guarded_clause(ctx, "C03-b", tb.path, "table-entry", b)
+        ctx.ob(RID, "the table stores the dimension argument", scalar_of(dim, "dimension") == Expr.symbol("D"), tb.path, "stored-dimension")
 
-    def c():
-        dimfn, dim = dimension_formula(ctx)
-        n = Expr.symbol("D") * Expr.symbol("L")
-        want = Expr.const(2) * Expr.symbol("E") - Expr.const(1) + n + Expr.atom(("call", "mod", n, Expr.const(2)))
-        compare(ctx, "C03-c", "get_dimension == 2E − 1 + D·L + (D·L mod 2)", dim, want, dimfn.path, "dimension-formula", {}, ())
-    guarded_clause(ctx, "C03-c", "SampleGenerator::get_dimension", "dimension", c)
+
+def run_c03_tail(ctx, f):
 
     def d():
         sg = world.Model("SampleGenerator", {"table": world.table, "loop_signature": world.signature})
@@ -1196,6 +1205,70 @@ def run_c03(ctx):
             ok = isinstance(res, Arr) and res.classes == ("E",) and scalar_of(res.at("e"), "weight") == leaf("w", "e")
             ctx.ob("C03-d", "iter_edge_weights yields topology[e].weight in index order", ok, bs_[0].path, "getter:iter_edge_weights")
     guarded_clause(ctx, "C03-d", "SampleGenerator", "getters", d)
+    run_c03_flags(ctx)
+
+
+def run_c03_flags(ctx, RID="C03-e"):
+    """Definition-level clause for the spanning flag, with the connected-components routine abstracted."""
+    ctx.rule(RID, "spanning(S) = [#massive edges in S == #massive edges of the graph] ∧ ∃ component c of S: ∀ external v: ∃ edge i of c touching v "
+                      "(connected-components routine abstracted, its correctness not decided)")
+    f = ctx.facts
+    sp_fns = [b for b in f.mir.values() if (f.fns.get(b.path) or {}).get("name") == "is_mass_momentum_spanning"]
+    if len(sp_fns) != 1:
+        return ctx.lost(RID, "the spanning routine")
+    fn = sp_fns[0].path
+    ctx.fn(fn)
+
+    def body():
+        def comps_hook(I, c, a):
+            e = a[1]
+            cls = e.classes[0] if isinstance(e, Arr) else "?"
+            return Arr(("comps(%s)" % cls,), lambda j: world.GraphIdVal("comp(«%s»)" % j), name="components")
+        hooks = {}
+        for key, b in f.mir.items():
+            if (f.fns.get(b.path) or {}).get("name") == "get_connected_components":
+                hooks[b.path] = comps_hook
+        I = Interp(f, models=hooks)
+        topo = Arr(("E",), lambda e: Struct("TropicalEdge", {
+            "edge_id": Num(Expr.leaf("$ix", e)), "left": Num(Expr.leaf("vl", e)), "right": Num(Expr.leaf("vr", e)),
+            "weight": Num(Expr.leaf("w", e)), "is_massive": Cond("key", "massive[«%s»]" % e)}), name="topology")
+        tg = Struct("TropicalGraph", {"dod": Num(Expr.symbol("dod")), "topology": topo, "num_massive_edges": Num(Expr.symbol("n_massive")),
+                                      "external_vertices": Arr(("X",), lambda v: Num(Expr.leaf("ext", v)), name="externals"), "num_loops": num_size("L")})
+        S = Arr(("S",), lambda k: Num(Expr.leaf("$ix", k), ent=k), name="subset")
+        res = I.run_fn(fn, [tg, S])
+        if not isinstance(res, Cond):
+            raise Undecided("spanning routine does not return a condition")
+        got = res.key()
+        mass = "%s Eq %s" % (Expr.atom(("call", "count", "{§∈S | massive[«§»]}")).key(), Expr.symbol("n_massive").key())
+        touch = "(%s Eq %s Or %s Eq %s)" % (leaf("vl", "§q2").key(), leaf("ext", "§q1").key(), leaf("vr", "§q2").key(), leaf("ext", "§q1").key())
+        mom = "∃§q0∈comps(S): (∀§q1∈X: (∃§q2∈edges(comp(«§q0»)): (%s)))" % touch
+        want = "(%s And %s)" % (mass, mom)
+
+        def parts(k):
+            k = k.strip()
+            if k.startswith("(") and k.endswith(")") and " And " in k:
+                depth, out, cur = 0, [], ""
+                inner = k[1:-1]
+                i = 0
+                while i < len(inner):
+                    ch = inner[i]
+                    if ch == "(":
+                        depth += 1
+                    elif ch == ")":
+                        depth -= 1
+                    if depth == 0 and inner.startswith(" And ", i):
+                        out.append(cur)
+                        cur = ""
+                        i += 5
+                        continue
+                    cur += ch
+                    i += 1
+                out.append(cur)
+                return sorted(out)
+            return [k]
+        ctx.ob(RID, "spanning(S) is the conjunction of the mass condition and the momentum condition of the statement", parts(got) == parts(want), fn,
+               "spanning-definition", detail="code:      %s\n        reference: %s" % (got[:900], want[:900]))
+    guarded_clause(ctx, RID, fn, "spanning-definition", body)
 
 
 class TableWorld:
@@ -1303,5 +1376,110 @@ def run_c04(ctx):
     guarded_clause(ctx, "C04-b", tb.path, "cached-factor", b)
 
 
+# ---------------------------------------------------------------------------------------------------
+# C20-b: Vector primitives
+
 def run_c20b(ctx):
-    pass
+    ctx.rule("C20-b", "Vector ops are componentwise with equal indices: (a±b)_i = a_i ± b_i, (a·s)_i = a_i·s, += updates every i < D, dot = 0 + Σ_i a_i·b_i "
+                      "accumulated from index 0 upwards, squared(v) = dot(v,v), constructors / get_elements are element-wise identity")
+    f = ctx.facts
+
+    def vec_fn(name, trait=None, rhs=None):
+        out = []
+        for b in f.mir.values():
+            fi = f.fns.get(b.path) or {}
+            if fi.get("name") != name or "vector::Vector" not in (fi.get("impl_self") or ""):
+                continue
+            if trait is not None and not (fi.get("impl_trait") or "").endswith(trait):
+                continue
+            if trait is None and fi.get("impl_trait"):
+                continue
+            if rhs is not None and len(fi.get("inputs", [])) > 1 and fi["inputs"][1] != rhs:
+                continue
+            out.append(b)
+        if len(out) != 1:
+            raise Undecided("Vector::%s%s (found %d)" % (name, " as " + trait if trait else "", len(out)))
+        return out[0]
+
+    A, B = world.vector("a"), world.vector("b")
+    S_ = Num(Expr.symbol("s"))
+
+    def one(desc, construct, thunk):
+        guarded_clause(ctx, "C20-b", "vector::Vector", construct, thunk)
+
+    def binop(name, trait, rhs_val, rhs_ty, want_fn, label):
+        def t():
+            b = vec_fn(name, trait, rhs_ty)
+            ctx.fn(b.path)
+            I = Interp(f)
+            res = I.run_fn(b.path, [A, rhs_val])
+            compare(ctx, "C20-b", "%s: component i" % label, comp(res, "i"), want_fn("i"), b.path, "vector-" + label, {"i": "D"}, ())
+        one(label, label, t)
+
+    binop("add", "arith::Add", B, None, lambda i: leaf("a", i) + leaf("b", i), "add")
+    binop("sub", "arith::Sub", B, None, lambda i: leaf("a", i) - leaf("b", i), "sub")
+    binop("mul", "arith::Mul", S_, "T", lambda i: leaf("a", i) * Expr.symbol("s"), "mul-by-value")
+    binop("mul", "arith::Mul", S_, "&T", lambda i: leaf("a", i) * Expr.symbol("s"), "mul-by-ref")
+
+    def dot():
+        b = vec_fn("dot")
+        ctx.fn(b.path)
+        I = Interp(f)
+        res = I.run_fn(b.path, [A, B])
+        i = fresh("i")
+        compare(ctx, "C20-b", "dot(a,b) == 0 + Σ_i a_i·b_i", scalar_of(res, "dot"), ssum(leaf("a", i) * leaf("b", i), i, "D"), b.path, "vector-dot", {}, ())
+        b2 = vec_fn("squared")
+        ctx.fn(b2.path)
+        res2 = I.run_fn(b2.path, [A])
+        compare(ctx, "C20-b", "squared(a) == Σ_i a_i·a_i (= dot(a,a))", scalar_of(res2, "squared"), ssum(leaf("a", i) * leaf("a", i), i, "D"), b2.path,
+                "vector-squared", {}, ())
+        # forward accumulation from index 0: no reversing / reordering adapter in the two pipelines
+        for bb in (b, b2):
+            names = []
+
+            def walk(x):
+                if isinstance(x, dict):
+                    if x.get("k") == "call" and x.get("callee"):
+                        names.append(x["callee"].get("name"))
+                    for v_ in x.values():
+                        walk(v_)
+                elif isinstance(x, list):
+                    for v_ in x:
+                        walk(v_)
+            walk(f.thir[bb.path]["body"])
+            bad = [n for n in names if n in ("rev", "rfold", "next_back", "rposition", "sorted", "chunks", "step_by", "tree_fold1", "tree_reduce")]
+            ctx.ob("C20-b", "%s accumulates in ascending index order (pipeline %s)" % (norm_path(bb.path), [n for n in names if n]), not bad and "fold" in names,
+                   bb.path, "forward-accumulation", detail="adapters %s" % bad)
+    one("dot", "dot", dot)
+
+    def add_assign():
+        b = vec_fn("add_assign", "arith::AddAssign")
+        ctx.fn(b.path)
+        I = Interp(f)
+        from ..kern.interp import PlaceRef
+        env = Interp.Env()
+        env.define("V", A)
+        I.run_fn(b.path, [PlaceRef("V", []), B], env)
+        res = env.get("V")
+        compare(ctx, "C20-b", "a += b updates every component i < D", comp(res, "i"), leaf("a", "i") + leaf("b", "i"), b.path, "vector-add-assign", {"i": "D"}, ())
+    one("add_assign", "add-assign", add_assign)
+
+    def ctors():
+        arr = Arr(("D",), lambda c: Num(Expr.leaf("a", c)), name="elems")
+        for name, arg in (("from_array", arr), ("from_slice", arr)):
+            b = vec_fn(name)
+            ctx.fn(b.path)
+            I = Interp(f)
+            res = I.run_fn(b.path, [arg])
+            ctx.ob("C20-b", "%s keeps every element in place" % name, comp(res, "i") == leaf("a", "i"), b.path, "vector-ctor:" + name)
+        b = vec_fn("get_elements")
+        I = Interp(f)
+        res = I.run_fn(b.path, [A])
+        ok = isinstance(res, Arr) and scalar_of(res.at("i"), "element") == leaf("a", "i")
+        ctx.ob("C20-b", "get_elements returns the elements in place", ok, b.path, "vector-get-elements")
+        for name in ("new", "new_from_num"):
+            b = vec_fn(name)
+            I = Interp(f)
+            res = I.run_fn(b.path, [A if name == "new" else Num(Expr.symbol("s"))])
+            ctx.ob("C20-b", "%s is the zero vector" % name, comp(res, "i") == Expr.zero(), b.path, "vector-zero:" + name)
+    one("ctors", "ctors", ctors)
